@@ -332,9 +332,10 @@ def _calls_ws_wait(fi):
                n.func.value.id == 'ws' for n in ast.walk(fi.node))
 
 
-def handler_paths(A, fl, cache={}):
+def handler_paths(A, fl):
     """Paths of _websocket_handler with its frame-reading helper(s) inlined."""
-    key = (id(A), fl['name'])
+    cache = A.__dict__.setdefault('_handler_paths', {})
+    key = fl['name']
     if key in cache:
         return cache[key]
     fi = A.func(fl['socket'] + '._websocket_handler')
@@ -352,7 +353,6 @@ def handler_paths(A, fl, cache={}):
             'ws.wait' not in ast.unparse(st)
     en = A.enum(inline=inl, opaque=opaque, max_paths=60000)
     ps = [p for p in A.paths(en, fi, sock) if p.outcome != 'cut']
-    cache.clear()
     cache[key] = (fi, sock, readers, ps)
     return cache[key]
 
